@@ -104,6 +104,13 @@ theorem checksum_tie (b : Bytes) : genChecksum b = .ok (checksum b) := by
       rw [this, idxI_natCast]; simp [idx, h2]
     simp [he, hidx]
 
+/-- non-vacuity: the regenerated function computes the checksum of a real IPv4 header (field zeroed) -/
+example : genChecksum [0x45,0x00,0x00,0x54,0x00,0x00,0x40,0x00,0x40,0x01,0xc0,0xa8,0x00,0x01,0xc0,0xa8,0x00,0xc7]
+    = .ok (checksum [0x45,0x00,0x00,0x54,0x00,0x00,0x40,0x00,0x40,0x01,0xc0,0xa8,0x00,0x01,0xc0,0xa8,0x00,0xc7]) :=
+  checksum_tie _
+example : genChecksum [] = .ok 0xffff := by decide
+example : genChecksum [1] = .ok 0xfffe := by decide
+
 theorem cksumAcc_append_even (x y : Bytes) (s : UInt32) (h : x.length % 2 = 0) :
     cksumAcc (x ++ y) s = cksumAcc y (cksumAcc x s) := by
   fun_induction cksumAcc x s with
@@ -144,6 +151,9 @@ theorem ip4CalculateChecksum_tie (p : Bytes) : genIP4_CalculateChecksum p = ip4C
     rw [← checksum_pad (List.take 10 p ++ List.take 8 (List.drop 12 p)) (by simp only [List.length_append, l10, l8])]
     simp [m, e, d, List.take_take, List.drop_append, l10]
 
+/-- non-vacuity: a truncated header panics in both -/
+example : genIP4_CalculateChecksum [0x45] = .panic := by rw [ip4CalculateChecksum_tie]; rfl
+
 /-- **ICMP.SetChecksum tie**: `p[3] = uint8(cs >> 8); p[2] = uint8(cs)` is `putChecksum p 2 cs` (the store C15's
     `icmp4_verifies` / `icmp6_verifies` are about); a message shorter than 4 bytes panics. -/
 theorem icmpSetChecksum_tie (p : Bytes) (cs : UInt16) :
@@ -156,6 +166,9 @@ theorem icmpSetChecksum_tie (p : Bytes) (cs : UInt16) :
     have b : ((2 : Int) < (p.length : Int)) := by omega
     simp [setI, h, a, b]
     exact List.set_comm _ _ (by decide)
+
+/-- non-vacuity: the two bytes land little-endian at offsets 2, 3 -/
+example : genICMP_SetChecksum [8, 0, 0, 0, 1] 0x1234 = .ok [8, 0, 0x34, 0x12, 1] := by decide
 
 /-- the three functions of package packet named by Model/Checksum.lean are translated … -/
 theorem translated_accounted : packetLoopsTranslated =
@@ -171,13 +184,5 @@ theorem untranslated_accounted : packetLoopsUntranslated.map (·.1) =
 theorem assumptions_accounted : loopAssumptions.map (·.1) =
     ["intNoOverflow", "capEqLen", "noAlias"] := by decide
 
-/-- non-vacuity: the regenerated function computes the checksum of a real IPv4 header (field zeroed) -/
-example : genChecksum [0x45,0x00,0x00,0x54,0x00,0x00,0x40,0x00,0x40,0x01,0xc0,0xa8,0x00,0x01,0xc0,0xa8,0x00,0xc7]
-    = .ok (checksum [0x45,0x00,0x00,0x54,0x00,0x00,0x40,0x00,0x40,0x01,0xc0,0xa8,0x00,0x01,0xc0,0xa8,0x00,0xc7]) :=
-  checksum_tie _
-example : genChecksum [] = .ok 0xffff := by decide
-example : genChecksum [1] = .ok 0xfffe := by decide
-example : genIP4_CalculateChecksum [0x45] = .panic := by rw [ip4CalculateChecksum_tie]; rfl
-example : genICMP_SetChecksum [8, 0, 0, 0, 1] 0x1234 = .ok [8, 0, 0x34, 0x12, 1] := by decide
 
 end PV.Props.C15Tie
